@@ -2,7 +2,7 @@
 import ast
 
 from ..model import AnalysisError, dotted, unparse
-from ..util import POS, U, enum_paths, walk_no_nested, is_yield_call
+from ..util import resolved_text, POS, U, enum_paths, walk_no_nested, is_yield_call
 from ..paths import call_attr, call_name
 from .c03 import facts, add_remove
 
@@ -210,6 +210,39 @@ def r2(ctx):
     if ('self._endpoint_name', False) in fs and r_:
       seen['service'] = U(r_[-1].node.value) == ge.params[1] + '.service_endpoint'
   ctx.ob('C05.R2', ge, 'a member is identified by its service endpoint (or the named additional endpoint)', seen.get('service', False), '__GetEndpoint changed', why, nontrivial=False)
+  # a server set that names an endpoint ('zk://...#http') contains only what members publish under that name: no other endpoint of the member stands in for it
+  n_named = 0
+  for ev, ex in enum_paths(ctx, ge):
+    fs = facts(ev)
+    if ('self._endpoint_name', True) not in fs:
+      continue
+    n_named += 1
+    r_ = [e for e in ev if e.kind == 'ret']
+    okn = True
+    if ex[0] == 'ret' and r_ and r_[-1].node.value is not None:
+      t_ = resolved_text(ev, ev.index(r_[-1]), r_[-1].node.value).replace(' ', '')
+      okn = 'service_endpoint' not in t_ and ('self._endpoint_name' in t_)
+    ctx.ob('C05.R2', ge, 'with a named endpoint only the endpoint of that name identifies the member', okn,
+           'a path with an endpoint name set returns %s' % (U(r_[-1].node.value) if r_ and r_[-1].node.value is not None else None),
+           'a member that does not publish the named endpoint is not part of that server set: falling back to its service endpoint installs (and dispatches to) an address outside the set')
+  ctx.floor('C05.R2', 'named-endpoint paths of __GetEndpoint', n_named, 1)
+  # the lock decorator hands the result of the wrapped method back (the aperture reads what the heap balancer's _AddSink/_RemoveSink return)
+  sync = prog.try_func(H, 'synchronized')
+  if sync is not None and sync.nested:
+    w = list(sync.nested.values())[0]
+    fnp = sync.params[0]
+    okw = True
+    npaths = 0
+    for ev, ex in enum_paths(ctx, w):
+      if ex[0] != 'ret':
+        continue
+      npaths += 1
+      calls_ = [e for e in ev if e.kind == 'call' and U(e.node.func) == fnp]
+      r_ = [e for e in ev if e.kind == 'ret']
+      okw = okw and len(calls_) == 1 and bool(r_) and r_[-1].node.value is not None and resolved_text(ev, ev.index(r_[-1]), r_[-1].node.value).replace(' ', '').startswith(fnp + '(')
+    ctx.ob('C05.R2', w, 'the lock decorator returns what the wrapped method returns', okw and npaths >= 1, 'synchronized.wrapper drops or replaces the result of %s' % fnp,
+           'ApertureBalancerSink._RemoveSink / _AddSink decide from the value the heap balancer returns whether an active member has to be replaced from the idle set: a wrapper that returns None '
+           'leaves the aperture below min_size with idle members present')
 
 
 def r3(ctx):
